@@ -4,6 +4,7 @@ the normalised contribution vector of the listed parents; the vector latentfn is
 normalised decision vector by construction.
 -/
 import PybropsModel.Lemmas.SelectionSum
+import PybropsModel.Lemmas.GMapSort
 set_option autoImplicit false
 set_option linter.unusedSectionVars false
 set_option linter.unusedSimpArgs false
@@ -73,6 +74,7 @@ theorem subset_eq_core (eps : α) (cr : Crit α) (hv : cr.hasVec = true) (S : Li
     simp only [Crit.ncand] at hS ⊢
     rw [linSubset_eq D _ S hS, hfw]
   | opv H => simp [Crit.hasVec] at hv
+  | gb H nb => simp [Crit.hasVec] at hv
   | pafd g p w tf => simp [Crit.hasVec] at hv
   | pau g p w tf => simp [Crit.hasVec] at hv
   | mogs g p w tf => simp [Crit.hasVec] at hv
@@ -184,6 +186,31 @@ theorem opvSubset_perm (H : List (List (List (List α)))) (S S' : List Nat) (h :
   intro Hp _
   exact h.map _
 
+/-- ascending sort is a canonical form: permuted inputs sort to the same list -/
+theorem sortAsc_perm (l l' : List α) (h : l.Perm l') : sortAsc l = sortAsc l' := by
+  unfold sortAsc
+  apply GMap.stableSort_eq_of_perm _ _ _ h
+  · intro a b _ _ hab hba
+    simp only [Bool.not_eq_true', decide_eq_false_iff_not, not_lt] at hab hba
+    exact le_antisymm hab hba
+  · intro a b
+    simp only [Bool.not_eq_true', decide_eq_false_iff_not, not_lt]
+    exact le_total a b
+  · intro a b c hab hbc
+    simp only [Bool.not_eq_true', decide_eq_false_iff_not, not_lt] at hab hbc ⊢
+    exact hab.trans hbc
+
+theorem gbSubset_perm (H : List (List (List (List α)))) (nb : Nat) (S S' : List Nat) (h : S.Perm S') :
+    gbSubset H nb S = gbSubset H nb S' := by
+  unfold gbSubset
+  apply List.map_congr_left
+  intro j _
+  congr 1
+  apply rsum_congr
+  intro b _
+  simp only
+  rw [sortAsc_perm _ _ (h.map _), h.length_eq]
+
 /-- **order independence** of the subset encoding, every criterion -/
 theorem latent_subset_perm (eps : α) (cr : Crit α) (S S' : List Nat) (h : S.Perm S') :
     latent eps cr (.subset S) = latent eps cr (.subset S') := by
@@ -203,6 +230,7 @@ theorem latent_subset_perm (eps : α) (cr : Crit α) (S S' : List Nat) (h : S.Pe
       simp [h.mem_iff]
     simp only [this]
   | opv H => simp only [latent]; rw [opvSubset_perm H S S' h]
+  | gb H nb => simp only [latent]; rw [gbSubset_perm H nb S S' h]
   | pafd g p w tf => simp only [latent]; rw [pafdSubset_perm g p w tf S S' h]
   | pau g p w tf => simp only [latent]; rw [pauSubset_perm g p w tf S S' h]
   | mogs g p w tf => simp only [latent]; rw [mogsPau_perm g p w tf S S' h, pafdSubset_perm g p w tf S S' h]
